@@ -25,16 +25,16 @@ func (a *Acct) Empty() bool {
 
 type Stake struct {
 	Owner, To, Hash string
-	Power         int64
-	Start, Refund int64
+	Power           int64
+	Start, Refund   int64
 }
 
 type Deleg struct {
-	Addr, Pub              string
-	Self, Total, Slashed   int64
-	Stakes                 []Stake
-	NotSigned              []int64
-	Raw                    string
+	Addr, Pub            string
+	Self, Total, Slashed int64
+	Stakes               []Stake
+	NotSigned            []int64
+	Raw                  string
 }
 
 type Reward struct {
